@@ -167,6 +167,10 @@ func verifMaxAlloc() int                   { return 0 }
 func verifAllocReset()                     {}
 func verifNote(s string)                   {}
 
+// verifLastMarshal returns the value most recently handed to encoding/json.Marshal (executor only: there Marshal is an
+// opaque stub; natively harnesses inspect the real output instead).
+func verifLastMarshal() any { return nil }
+
 // verifAdvance advances the (virtual) clock by d; natively it sleeps for d.
 func verifAdvance(d veriftime.Duration) { veriftime.Sleep(d) }
 
